@@ -200,6 +200,7 @@ class C09(PropertyCheck):
         "QipVerif.C09.ctor_controlled_anatomy", "QipVerif.C09.ctor_chain_hands_on", "QipVerif.C09.ctor_request_honoured",
         "QipVerif.C09.ctor_plain_table", "QipVerif.C09.ctor_plain_anatomy", "QipVerif.C09.ctor_fixed_table",
         "QipVerif.C09.ctor_fixed_refuses", "QipVerif.C09.circuit_path_history_independent",
+        "QipVerif.C09.ctor_controlled_expanded",
         "QipVerif.C09.ctor_circuit_agrees", "QipVerif.C09.ctor_controlled_matrix", "QipVerif.C09.ctor_controlled_value_refused",
     ]
     base_theorems = list(theorems)
@@ -229,7 +230,12 @@ class C09(PropertyCheck):
                   "hierarchy (TOFFOLI, FREDKIN, generic Gate of a controlled name) serve a request only with no control value or "
                   "'all listed controls 1' (ctor_fixed_refuses); circuit path = class path (ctor_circuit_agrees) and, by the regenerated "
                   "rule of QubitCircuit._get_gate_unitary (own get_compact_qobj, no circuit state written), independent of the other "
-                  "gates a circuit holds (circuit_path_history_independent; 2.7k circuits of several gate objects per run). These hold for "
+                  "gates a circuit holds (circuit_path_history_independent; 2.7k circuits of several gate objects per run); the object "
+                  "expanded on a register (get_qobj, propagators(expand=True): regenerated rule expand_operator(compact, dims, "
+                  "controls + targets)) is Tg.embed (ctrlN m v U) on the controls in LISTED order, first listed most significant — "
+                  "the operator controlled_gate returns (ctor_controlled_expanded; 4.3k placements x values vs the model and 7k "
+                  "requests vs an independent listed-order semantics per run, through get_qobj, propagators, compute_unitary, by "
+                  "name and the function). These hold for "
                   "the source after the fixes C09-2 (CPHASE dropped control_value) and C09-3 (TOFFOLI/FREDKIN/generic Gate ignored "
                   "it), found here and applied. "
                   "Tie: float rendering of the same syntax trees vs the functions on a 15-angle "
@@ -419,6 +425,10 @@ class C09(PropertyCheck):
         #     — the matrix reported through the circuit is the gate's own, whatever else the circuit holds
         cc.correspondence_multi(ctx, res)
 
+        # (g) controlled objects AFTER expansion on a register: model GateCtor.expanded (rule Gen.G.gateGetQobj) vs
+        #     get_qobj(dims=[2]*N), every ordered placement of 1..3 controls + target on 3 and 4 qubits x every value
+        cc.correspondence_expand(ctx, res, drv)
+
     def _corr_ctrl(self, ctx, res, drv):
         import qutip
         from qutip_qip.operations import controlled_gate
@@ -545,6 +555,8 @@ class C09(PropertyCheck):
             return cc.oracle(w)
         if w["kind"] == "circ":
             return cc.oracle_multi(w)
+        if w["kind"] == "expand":
+            return cc.oracle_expand(w)
         if w["kind"] == "ctrl-malformed":
             return False, "malformed request to controlled_gate (outside the property); only the refusal kind is compared"
         return False, "unknown witness"
@@ -574,6 +586,10 @@ class C09(PropertyCheck):
                 yield w, det
         for w in cc.multi_requests(random.Random(rng_seed), thorough):
             f, det = cc.oracle_multi(w)
+            if f:
+                yield w, det
+        for w in cc.expand_requests(random.Random(rng_seed), thorough):
+            f, det = cc.oracle_expand(w)
             if f:
                 yield w, det
 
